@@ -32,15 +32,12 @@ def run(repo, rep):
     rep.clause("C02-g", "rolling-buffer reservations are as wide and tall as the producer writes and are recomputed for every cascade proposal [rule shared with C03-e]")
     from . import c03, c08
 
-    with rep.borrow({"C08-e": "C02-f"}):
-        c08.run(repo, rep)
-    with rep.borrow({"C03-e": "C02-g"}):
-        c03.run(repo, rep)
+    rep.run_borrowed(c08, {"C08-e": "C02-f"}, repo)
+    rep.run_borrowed(c03, {"C03-e": "C02-g"}, repo)
     rep.clause("C02-h", "the memory mode and arena cache size that bound the regions are the ones the selected configuration section defines (a section's own key overrides what it inherits) [rule shared with C18-b]")
     from . import c18
 
-    with rep.borrow({"C18-b": "C02-h"}):
-        c18.run(repo, rep)
+    rep.run_borrowed(c18, {"C18-b": "C02-h"}, repo)
     rep.clause("C02-i", "byte offsets computed by graph rewrites use each tensor dimension in its layout position: 4-element shape unpackings name N,H,W,C (feature maps) / H,W,I,O (weights) in order")
     rule_shape_unpack(repo, rep)
 
